@@ -34,12 +34,14 @@ def main() -> int:
     na_reasons = json.loads(na_file.read_text()) if na_file.exists() else {}
     checks = []
     not_applicable = []
+    # only checks reviewed and accepted by the maintainer of /verif are registered
+    accepted = set((ROOT / "tools" / "accepted.txt").read_text().split())
     hooks_file = ROOT / "tools" / "hooks.json"
     hooks_commits = json.loads(hooks_file.read_text()) if hooks_file.exists() else []
     for p in props:
         pid = p["id"]
         mod = ROOT / "checks" / f"{pid.lower()}.py"
-        if not mod.exists():
+        if not mod.exists() or pid not in accepted:
             not_applicable.append({"property_id": pid, "reason": na_reasons.get(pid, "check not built yet")})
             continue
         c = consts(mod)
